@@ -88,6 +88,15 @@ def make_ensemble(rng, r, n=None, d=None):
         form = form + "+real-first"
     pk = (r // 3) % 4
     p = gen.prior(rng, n, pk)
+    if (r // 5) % 4 == 3 and n >= 3:
+        # the same state at two list positions with different priors (the ensemble is the one with the two weights added)
+        i_, j_ = sorted(int(v) for v in rng.permutation(n)[:2])
+        rhos[j_], inp[j_] = rhos[i_].copy(), inp[i_].copy()
+        if vecs is not None:
+            vecs[j_] = vecs[i_].copy()
+        if p[j_] <= p[i_]:
+            p[i_], p[j_] = p[j_], p[i_]  # the later copy carries the larger weight
+        form = form + "+repeated-state"
     return dict(d=d, n=n, cplx=cplx, form=form, rhos=rhos, inp=inp, vecs=vecs, p=p, pk=pk)
 
 
@@ -188,16 +197,25 @@ def _unambiguous(ctx, e, v_min_error, rng):
     rd = _solve(ctx, state_distinguishability, _fresh(e["inp"]), list(p), strategy="unambiguous", primal_dual="dual", mech=f"crash:unambiguous-dual[{field}]")
     up = None if rp is None else float(np.real(rp[0]))
     ud = None if rd is None else float(np.real(rd[0]))
+    # unambiguous identification of a state is possible iff it lies outside the span of the others: the value is 0 exactly when EVERY state lies in
+    # the span of the rest (with a clear numerical margin both ways; with repeated states n > d alone does not imply it)
+    mat = np.array([np.asarray(v_).reshape(-1) for v_ in e["vecs"]]).T
+    resid = []
+    for i_ in range(n):
+        others = np.delete(mat, i_, axis=1)
+        coef = np.linalg.lstsq(others, mat[:, i_], rcond=None)[0]
+        resid.append(float(np.linalg.norm(others @ coef - mat[:, i_])))
+    all_in_span = max(resid) <= 1e-9
     if up is not None:
         s = np.array(rp[1][0].value, dtype=float).reshape(-1)
         feas = ref.eigmin(gram - np.diag(s)) >= -1e-6 and s.min() >= -1e-6
         ctx.check("O3:unambiguous-feasible", feas and abs(float(np.dot(p, s)) - up) <= TOLV, sig=sig, nt=nt, mech="unambiguous-primal:infeasible-or-not-attaining",
                   detail={"s": s, "value": up, "eigmin": ref.eigmin(gram - np.diag(s))})
         ctx.check("O3:unambiguous<=min-error", up <= v_min_error + TOLV and up >= -TOLV, sig=sig, nt=nt, mech="unambiguous:above-min-error", detail={"unambiguous": up, "min_error": v_min_error})
-        if n > d:
+        if all_in_span:
             ctx.check("O3:dependent=0", abs(up) <= TOLV, dev=abs(up), tol=TOLV, sig=sig + ("primal",), nt=nt, mech="unambiguous-primal:nonzero-on-dependent-states", detail={"value": up, "n": n, "d": d})
     if ud is not None:
-        if n > d:
+        if all_in_span:
             ctx.check("O3:dependent=0", abs(ud) <= TOLV, dev=abs(ud), tol=TOLV, sig=sig + ("dual",), nt=nt, mech=f"unambiguous-dual:nonzero-on-dependent-states[{field}]", detail={"value": ud, "n": n, "d": d})
         if up is not None:
             ctx.check("O3:unambiguous-primal=dual", None, dev=abs(up - ud), tol=TOLV, sig=sig, nt=nt, mech=f"unambiguous:primal!=dual[{field}]", detail={"primal": up, "dual": ud})
